@@ -48,6 +48,8 @@ def _mk_corpus():
     fx = common.FIX
     a, b, c = (rd(os.path.join(fx, "libs", x, x + ".h")) for x in "abc")
     add("fix/rich.h", {"rich.h": rd(os.path.join(fx, "single/rich.h"))}, "rich.h", "rich.h", ["-D__cplusplus"], ["pf", "pfe", "ig", "igc", "igo"])
+    add("fix/slots.h", {"slots.h": rd(os.path.join(fx, "single/slots.h"))}, "slots.h", "slots.h", ["-D__cplusplus"], ["pf", "ig", "igc", "igo"])
+    add("fix/declined.h", {"declined.h": rd(os.path.join(fx, "single/declined.h"))}, "declined.h", "declined.h", ["-D__cplusplus"], ["pf", "ig", "igc", "igo"])
     add("fix/a.h", {"a.h": a}, "a.h", "a.h", ["-D__cplusplus"], ["pf", "ig"])
     add("fix/b.h:inc", {"a.h": a, "b.h": b}, "b.h", "a.h", ["-D__cplusplus"], ["pf", "ig"])
     add("fix/c.h", {"a.h": a, "b.h": b, "c.h": c}, "c.h", "c.h", ["-D__cplusplus"], ["pf", "ig"])
